@@ -241,7 +241,7 @@ fn flatten_job(key: K, form: Form, len: usize) -> Job {
 pub fn plan(tier: Tier) -> Plan {
   let len = match tier {
     Tier::Quick => 6,
-    Tier::Thorough => 8,
+    Tier::Thorough => 9,
   };
   let mut jobs = vec![];
   for key in KeyFn::ALL {
